@@ -33,7 +33,7 @@ def input_hash(repo=REPO):
 def ensure_facts(config="dev", repo=REPO, verbose=False):
     """Return the directory holding fresh facts for `repo` in `config` (dev|release|test); re-extract on any input change."""
     hsh = input_hash(repo)
-    cache_root = os.path.join(VERIF, ".cache")
+    cache_root = os.environ.get("RWS_CACHE_DIR") or os.path.join(VERIF, ".cache")
     d = os.path.join(cache_root, "%s-%s" % (config, hsh[:24]))
     stamp = os.path.join(d, "OK")
     if os.path.exists(stamp) and all(os.path.getsize(os.path.join(d, CRATE_FILES[c])) > 0 for c in CRATES):
